@@ -215,9 +215,20 @@ type Registry struct {
 	Order   []*WorldInfo
 }
 
+// acctImage is the canonical content of an account in a world.
+type acctImage struct {
+	Nonce, Balance uint64
+	Root, Code     []byte
+}
+
+func (a acctImage) sameAs(nonce, bal uint64, root, code []byte) bool {
+	return a.Nonce == nonce && a.Balance == bal && bytes.Equal(a.Root, root) && bytes.Equal(a.Code, code)
+}
+
 type WorldInfo struct {
-	W     World
-	Root  common.Hash
+	W        World
+	Root     common.Hash
+	Accounts map[int]acctImage // canonical slim accounts by account key
 	Image [32]byte // digest of the canonical flat-state + trie-node key space
 	NKeys int      // number of entries in the canonical image
 }
@@ -295,9 +306,21 @@ func (r *Registry) Info(w World) *WorldInfo {
 			panic(fmt.Sprintf("harness: fresh flush: %v", err))
 		}
 	}
-	img, n := stateImage(kv.Snapshot())
+	snap := kv.Snapshot()
+	img, n := stateImage(snap)
 	tdb.Close()
-	wi := &WorldInfo{W: w.Copy(), Root: root, Image: img, NKeys: n}
+	wi := &WorldInfo{W: w.Copy(), Root: root, Image: img, NKeys: n, Accounts: map[int]acctImage{}}
+	for k := range w {
+		if !r.Shape.IsAcct(k) || w[k] == 0 {
+			continue
+		}
+		blob := snap[string(append([]byte{rawdb.SnapshotAccountPrefix[0]}, crypto.Keccak256(r.Shape.Addr(k).Bytes())...))]
+		var slim types.SlimAccount
+		if err := rlp.DecodeBytes(blob, &slim); err != nil {
+			panic(fmt.Sprintf("harness: canonical account %d of %v: %v", k, w, err))
+		}
+		wi.Accounts[k] = acctImage{Nonce: slim.Nonce, Balance: slim.Balance.Uint64(), Root: slim.Root, Code: slim.CodeHash}
+	}
 	if o, dup := r.ByRoot[root]; dup && !o.W.Eq(w) {
 		panic(fmt.Sprintf("harness: two worlds with one root: %v %v", o.W, w))
 	}
@@ -743,4 +766,3 @@ func ScratchDir(prefix string) string {
 	panic("harness: no scratch directory")
 }
 
-var _ = bytes.Equal
